@@ -1122,6 +1122,24 @@ fn c11_scenarios(w: usize, n: usize) -> Vec<(String, Scenario)> {
             }
         }
     }
+    // a history on one thread: a `dispatch_seq` in which a system panics (caught by the caller), then an ordinary
+    // dispatch - the stage behind the barrier still runs side by side
+    if w <= 4 {
+        let mut ops = vec![Op::Sys(crate::spec::SysSpec { name: "p".into(), reads: vec![], writes: vec![], time: 3, deps: vec![] }), Op::Barrier];
+        ops.extend(wide_stage(w));
+        for user in [true, false] {
+            let mut s = Scenario::plain(ops.clone(), Mode::Dispatch, 2);
+            if user {
+                s.user_pool = Some(n);
+            } else {
+                s.default_threads = Some(n);
+            }
+            s.first_seq = true;
+            s.panics = vec![(0, false)];
+            s.rendezvous = Some(((1..=w).collect(), w as u16));
+            v.push((format!("dispatch_seq with a panicking system (caught), then dispatch / width {} / {} threads", w, n), s));
+        }
+    }
     // the wide stage inside a batch inside a batch: the innermost dispatcher runs on the pool its own builder made
     // (finding KF3), which here is as wide as the shared one - it must still run the stage in parallel
     if w <= 4 {
@@ -1326,6 +1344,30 @@ pub fn run_c15(tier: Tier, budget: Duration, frag: &mut Frag) {
         let opts = ExploreOpts { bounds: vec![0, 1], all_points: false, deadline: t0 + budget / 4, max_execs: u64::MAX, keep_traces: 0, deadlock_prop: Some("EXPECTED-BLOCKED-CALLER"), delay_mode: false };
         let r = run_scenarios(&scs, Mon::default(), &opts);
         frag.parts.push(json!({"engine":"E2 schedmc","scenarios":"a background system panics whenever it runs: 9 scripts x every system of 6 plans; a call may unwind or block, it must not return as if the dispatch had completed","n_scenarios":scs.len(),"scenarios_completed":r.completed,"schedules":r.executions,"states":r.nodes,"transitions":r.transitions,"deadlocks":r.deadlocks,"cap_hit":r.capped,"wall_s":t0.elapsed().as_secs_f64()}));
+        frag.states += r.nodes;
+        frag.transitions += r.transitions;
+        frag.exhaustive &= !r.capped;
+        frag.col.merge(r.col);
+    }
+    // a system's setup hook panics the first time (the caller catches it, sets up again - successfully - and goes
+    // on): every later dispatch runs every system once
+    {
+        let mut scs = Vec::new();
+        for (_, p) in plans.iter().take(6) {
+            let info = PlanInfo::of(p);
+            for n in &info.nodes {
+                for s in ["SSDW", "SSDWDW", "SDW", "SSDDW"] {
+                    let mut sc = Scenario::plain(p.clone(), Mode::Async, 0);
+                    sc.script = Some(s.to_string());
+                    sc.setup_panics = vec![n.id];
+                    scs.push(sc);
+                }
+            }
+        }
+        let t0 = Instant::now();
+        let opts = ExploreOpts { bounds: vec![0, 1], all_points: false, deadline: t0 + budget / 6, max_execs: u64::MAX, keep_traces: 0, deadlock_prop: Some("C15"), delay_mode: false };
+        let r = run_scenarios(&scs, Mon::default(), &opts);
+        frag.parts.push(json!({"engine":"E2 schedmc","scenarios":"the first setup call of one system panics (caught by the caller, who sets up again and dispatches): scripts SSDW, SSDWDW, SDW, SSDDW x every system of 6 plans","n_scenarios":scs.len(),"scenarios_completed":r.completed,"schedules":r.executions,"states":r.nodes,"transitions":r.transitions,"deadlocks":r.deadlocks,"cap_hit":r.capped,"wall_s":t0.elapsed().as_secs_f64()}));
         frag.states += r.nodes;
         frag.transitions += r.transitions;
         frag.exhaustive &= !r.capped;
@@ -1763,4 +1805,85 @@ pub fn escalate(prop: &str, frag: &mut Frag) {
     frag.states += r.nodes;
     frag.transitions += r.transitions;
     frag.col.merge(r.col);
+}
+
+
+// ---------------------------------------------------------------------------
+// C14: histories in which the PROCESS may die (a panic while unwinding aborts) run in a child process first
+// ---------------------------------------------------------------------------
+
+fn abort_probe_scenarios() -> Vec<Scenario> {
+    let sy = |n: &str, w: &[u8], deps: &[&str]| Op::Sys(crate::spec::SysSpec { name: n.into(), reads: vec![], writes: w.to_vec(), time: 3, deps: deps.iter().map(|x| x.to_string()).collect() });
+    let tlop = Op::Tl(crate::spec::SysSpec { name: String::new(), reads: vec![], writes: vec![], time: 3, deps: vec![] });
+    let plans: Vec<Vec<Op>> = vec![
+        vec![sy("a", &[], &[]), sy("b", &[], &[])],
+        vec![sy("a", &[0], &[]), sy("b", &[1], &[]), sy("c", &[0, 1], &["a", "b"])],
+        vec![sy("a", &[0], &[]), sy("b", &[0], &[])],
+        vec![sy("a", &[], &[]), tlop.clone(), tlop.clone()],
+        vec![Op::Batch(crate::spec::BatchSpec { name: "bt".into(), deps: vec![], ctrl: crate::spec::CtrlData::Unit, times: 2, multi: false, fetch_data: false, inner: vec![sy("a", &[0], &[]), sy("b", &[1], &[])] }), sy("z", &[], &[])],
+    ];
+    let mut v = Vec::new();
+    for p in &plans {
+        let info = PlanInfo::of(p);
+        let ids: Vec<usize> = info.nodes.iter().filter(|n| n.kind != crate::spec::Kind::Batch).map(|n| n.id).collect();
+        for (i, a) in ids.iter().enumerate() {
+            for b in ids.iter().skip(i + 1) {
+                for mode in [Mode::Seq, Mode::Dispatch, Mode::Par] {
+                    for (fa, fb) in [(false, false), (true, false), (false, true)] {
+                        for typed in [false, true] {
+                            let mut s = Scenario::plain(p.clone(), mode, 2);
+                            s.panics = vec![(*a, fa), (*b, fb)];
+                            s.panic_typed = typed;
+                            v.push(s);
+                        }
+                    }
+                }
+            }
+        }
+    }
+    v
+}
+
+/// child side: run every scenario inline (no controlled scheduler), announcing it first
+pub fn abort_probe_child() -> i32 {
+    use std::io::Write;
+    crate::sched::install_quiet_hook();
+    for (k, sc) in abort_probe_scenarios().iter().enumerate() {
+        println!("SCENARIO {} {} x{} of {} with panicking systems {:?}", k, sc.mode.label(), sc.dispatches, plan_short(&sc.ops), sc.panics);
+        let _ = std::io::stdout().flush();
+        let _ = crate::schedmc::run_scenario(sc, false);
+    }
+    println!("DONE");
+    0
+}
+
+/// parent side; true = the child died
+pub fn run_abort_probe(frag: &mut Frag) -> bool {
+    let t0 = Instant::now();
+    let exe = match std::env::current_exe() {
+        Ok(e) => e,
+        Err(_) => return false,
+    };
+    let out = match std::process::Command::new(exe).arg("abort-probe").stderr(std::process::Stdio::null()).output() {
+        Ok(o) => o,
+        Err(_) => return false,
+    };
+    let text = String::from_utf8_lossy(&out.stdout).to_string();
+    let n = abort_probe_scenarios().len();
+    let done = text.lines().any(|l| l == "DONE");
+    frag.parts.push(json!({"engine":"child-process probe","what":"two systems panicking in one dispatch (same stage / consecutive stages / same group / thread-local / inside a repeating batch) under dispatch_seq, dispatch and dispatch_par, string and typed payloads, run inline in a child process: the process must survive every one of them (a second panic raised while the first unwinds aborts the process)","scenarios": n, "child_completed": done, "wall_s": t0.elapsed().as_secs_f64()}));
+    frag.states += n as u64;
+    frag.transitions += n as u64;
+    if done && out.status.success() {
+        return false;
+    }
+    let last = text.lines().filter(|l| l.starts_with("SCENARIO")).last().unwrap_or("(no scenario started)").to_string();
+    frag.col.add(crate::report::Finding {
+        prop: "C14".into(),
+        sig: "process-died-instead-of-panic-reaching-caller".into(),
+        msg: format!("the child process running the two-panic histories ended with {:?} in: {}", out.status, last),
+        replay: json!({"kind":"abort-probe","last": last}),
+        size: 1,
+    });
+    true
 }
